@@ -33,6 +33,12 @@ func c11ModelVerify(msg []byte, secrets map[string][]byte, reqMAC []byte, timers
 	if !bytes.Equal(mac, t.MAC) {
 		return false, "MAC mismatch"
 	}
+	// the TSIG variables include the TTL of the TSIG RR (RFC 8945 s.4.3.3: the RR's field, which is 0
+	// at the signer); the digest above is computed with 0, so another value on the wire is a mismatch.
+	// (The CLASS is pinned to ANY by the same section and is not judged, see DESIGN.md s.7.)
+	if !timersOnly && t.WireTTL != 0 {
+		return false, "TSIG RR TTL altered"
+	}
 	d := int64(now) - int64(t.TimeSigned)
 	if d < 0 {
 		d = -d
@@ -137,7 +143,7 @@ func c11Case(w *core.W, j int) {
 		return
 	}
 	signedAt := uint64(1_700_000_000 + r.IntN(1_000_000))
-	fudge := []uint16{300, 1, 256, 60, 65535}[r.IntN(5)]
+	fudge := []uint16{300, 1, 256, 60, 65535, 0}[r.IntN(6)] // 0 asks TsigGenerate for the default of 300
 	var reqMAC []byte
 	if j%2 == 1 {
 		reqMAC = g.Bytes([]int{20, 28, 32, 48, 64, 10}[r.IntN(6)])
@@ -193,6 +199,10 @@ func c11Case(w *core.W, j int) {
 	if derr != nil || !bytes.Equal(wantMAC, ts.MAC) || hex.EncodeToString(ts.MAC) != mac {
 		w.Violation(key("generate-mac/"+alg), fmt.Sprintf("MAC in the output %x (returned %s) is not the RFC 8945 HMAC %x", ts.MAC, mac, wantMAC), wit)
 		return
+	}
+	if fudge == 0 {
+		fudge = 300
+		w.Count("default_fudge_stubs", 1)
 	}
 	if ts.TimeSigned != signedAt || ts.Fudge != fudge || ts.OrigID != base.Id || !ts.KeyName.Equal(keyName) {
 		w.Violation(key("generate-shape/tsig-fields"), fmt.Sprintf("TSIG fields differ from the stub: time %d fudge %d origid %d key %s", ts.TimeSigned, ts.Fudge, ts.OrigID, ts.KeyName), wit)
